@@ -241,6 +241,19 @@ func TestC05(t *testing.T) {
 		if rapid.Bool().Draw(t, "bigserial") {
 			w.LeafSpec.Serial = append([]byte{0x7f}, s.Bytes(19)...)
 		}
+		// serial numbers are unique per ISSUER: the leaf (issued by the platform CA) may carry the number the root gave to
+		// the platform CA itself, to the TCB signer or to the QE signer. Each list speaks for its own issuer only.
+		switch rapid.SampledFrom([]string{"own", "own", "own", "own", "issuing-ca", "tcb-signer", "qe-signer"}).Draw(t, "leafSerialSameAs") {
+		case "issuing-ca":
+			w.LeafSpec.Serial = p.Int.X.SerialNumber.Bytes()
+			gen.Class("leaf-shares-its-serial-with-a-certificate-of-the-root")
+		case "tcb-signer":
+			w.LeafSpec.Serial = p.TcbSig.X.SerialNumber.Bytes()
+			gen.Class("leaf-shares-its-serial-with-a-certificate-of-the-root")
+		case "qe-signer":
+			w.LeafSpec.Serial = p.QeSig.X.SerialNumber.Bytes()
+			gen.Class("leaf-shares-its-serial-with-a-certificate-of-the-root")
+		}
 		if oddAKI {
 			w.LeafSpec.AKI = []byte{0xc1, 0xc2, 0xc3, 0xc4, 0xc5, 0xc6, 0xc7, 0xc8, 0xc9, 0xca, 0xcb, 0xcc, 0xcd, 0xce, 0xcf, 0xd0, 0xd1, 0xd2, 0xd3, 0xd4}
 		}
